@@ -18,7 +18,9 @@ RULE = ('2-3 real threads, each with its own compiled workbook and program (iter
         'evaluation that needs expanding / trimming / NA-filling; plain set_value/evaluate '
         'history; from_file of plain and iterative models; set_value + trim_graph; acyclic book '
         'in iterative mode), models built inside or outside the thread, threads fresh or '
-        'warmed-up with another workbook; exactly one thread runs at a time and every switch is '
+        'warmed-up with another workbook, started as plain threading.Thread or (a quarter of the '
+        'randomly scheduled runs) inside a copy of the contextvars context of a starter thread '
+        'that has used the library, as asyncio.to_thread does; exactly one thread runs at a time and every switch is '
         'decided by the schedule at yield points of cell-evaluation granularity (operation '
         'boundaries, entry/return of every formula evaluation and of every _C_/_R_ read). '
         'Schedules: the systematic family "A runs to its j-th yield point, B runs to completion '
@@ -238,7 +240,7 @@ def gen_case(rnd, tier, index):
                     'first': n_ % 2, 'grain': 'line'}
         if rnd.random() < 0.6:
             schedule['meet'] = [round(rnd.random(), 6), rnd.choice((0, 1, 2, 3, 5, 8))]
-        cfg = {}
+        cfg = {'ctx': True} if rnd.random() < 0.25 else {}
     else:
         n = rnd.choice((2, 2, 3))
         kf4 = index % 50 == 17
@@ -280,7 +282,7 @@ def gen_case(rnd, tier, index):
             schedule = {'family': 'random', 'p': p, 'switches': steps}
             if line:
                 schedule['grain'] = 'line'
-        cfg = {}
+        cfg = {'ctx': True} if rnd.random() < 0.25 else {}
     return {'spec': programs[0]['spec'], 'cfg': cfg, 'programs': programs, 'schedule': schedule,
             'ops': []}
 
@@ -551,7 +553,17 @@ def run_case(case):
                         warm_up(True)
                     return execute(p, models[p['name']], tmp, 'conc', s.yield_point)
                 return run
-            results = s.run({p['name']: body(p) for p in programs})
+            box = {}
+
+            def start():
+                # the thread that starts the others has used the library itself
+                if case.get('cfg', {}).get('ctx'):
+                    warm_up(True)
+                    count('fault:threads-started-in-a-copied-context')
+                box['r'] = s.run({p['name']: body(p) for p in programs},
+                                 copy_context=bool(case.get('cfg', {}).get('ctx')))
+            on_fresh_thread(start, name='starter')
+            results = box['r']
             taken = s.switches_taken
             count('scheduled-runs')
             count('yield-points', s.step)
